@@ -33,6 +33,11 @@
 //     of a rounding tie
 //   * termination: 3 s watchdog (hv::arm); memory safety: print_f's 'buff' is a
 //     stack array, the translation unit is compiled with ASan
+// Round 3b (wall time): this translation unit contains NO igris code (the engine is compiled from
+// igris/util/printf_impl.c and the two twin files, with the optimisation level and the sanitizers of bin/check);
+// the generator, the oracle and the dispatcher do not need -O1 - under ASan/UBSan the optimiser spent 15 of the
+// 21 s of the compile on them.
+#pragma GCC optimize("O0")
 #include "common/hv.h"
 #include <cstdarg>
 #include <climits>
@@ -48,6 +53,7 @@
 extern "C"
 {
     long c13_const(int i);
+    int c13_have_print_f(void);
     int c13_print_f(void (*h)(void *, int), void *d, long double r, int width, int precision, unsigned int ops,
                     int base, int with_exp, int is_shortened);
     // harness/C13_ld.c: third compilation with -DLONG_DOUBLE (DOUBLE = long double)
@@ -1052,25 +1058,79 @@ static void run_pm(const std::vector<std::string> &w, out &o)
 }
 
 // ---------------------------------------------------------------- round 3: constants of the compiled code (consts)
+// Round 3b: every constant is read through the twin compilation ONLY IF the internal name still exists
+// (c13_const() == C13_UNKNOWN otherwise); what the property makes observable is probed through the public entry:
+//   FRAC_MAX    >= position of the last non-zero fraction digit of %.1000f of tiny doubles (digits beyond are zeros)
+//   PREC_DEFAULT = number of fraction digits of %f
+// and, where the macro exists too, macro and behaviour must agree.  EXP_MAX (not observable over binary64 as long as
+// it is >= 3: judged by every %e op), PRINT_F_BUFF_SZ and the internal numbering of the OPS_ flag bits are NOT fixed
+// by the property: tags, not compared (EXP_MAX and BUFF_SZ enter the compared relation buff_fits).
+static const long C13_UNKNOWN = -1000000L;
+static long probe_frac_max()
+{
+    static const uint64_t vals[] = {0x0000000000000001ull, 0x0010000000000000ull, 0x000fffffffffffffull, 0x01a56e1fc2f8f359ull /* 1e-300 */};
+    long best = 0;
+    for (uint64_t b : vals)
+    {
+        Sink s;
+        shim(&s, "%.1000f", of_bits(b));
+        std::string t(s.out.begin(), s.out.end());
+        size_t dot = t.find('.');
+        if (dot == std::string::npos) continue;
+        size_t last = t.find_last_not_of('0');
+        if (last != std::string::npos && last > dot) best = std::max(best, (long)(last - dot));
+    }
+    return best;
+}
+static long probe_prec_default()
+{
+    Sink s;
+    shim(&s, "%f", 1.0);
+    std::string t(s.out.begin(), s.out.end());
+    size_t dot = t.find('.');
+    return dot == std::string::npos ? 0 : (long)(t.size() - dot - 1);
+}
 static void run_consts(out &o)
 {
     char b[512];
+    long buff = c13_const(0), fmax = c13_const(1), emax = c13_const(2), pdef = c13_const(3), szd = c13_const(4);
+    long fprobe = probe_frac_max(), pprobe = probe_prec_default();
     // PRINT_F_BUFF_SZ itself is not part of the compared result: the property does not fix the capacity, only that
     // nothing is stored outside it - what is compared (and judged below) is the relation print_f_safe_cfg needs;
-    // the absolute size is a tag.  FRAC_MAX / EXP_MAX are observable (digits beyond them are zeros) and compared.
-    long fits = std::max(c13_const(2), 1L) + c13_const(1) + 7 <= c13_const(0);
-    snprintf(b, sizeof b, "buff_fits=%ld FRAC_MAX=%ld EXP_MAX=%ld PREC_DEFAULT=%ld sizeof_DOUBLE=%ld sizeof_int=%ld ops=%ld,%ld,%ld,%ld,%ld,%ld,%ld,%ld sizeof_long_double=%ld",
-             fits, c13_const(1), c13_const(2), c13_const(3), c13_const(4), c13_const(5), c13_const(6), c13_const(7), c13_const(8),
-             c13_const(9), c13_const(10), c13_const(11), c13_const(12), c13_const(13), c13_const(14));
-    o.tag(("BUFF_SZ=" + std::to_string(c13_const(0))).c_str());
+    // the absolute size is a tag.  Without the macros: ASan's redzones around `buff` judge every op; neutral 1.
+    long fits = 1;
+    if (buff != C13_UNKNOWN && fmax != C13_UNKNOWN && emax != C13_UNKNOWN) fits = std::max(emax, 1L) + fmax + 7 <= buff;
+    else o.tag("buff_fits=not-readable");
+    // the probe is a LOWER bound (the 340th digit of a scaled denormal is a digit of a double above 2^53 and may be 0):
+    // with the macro, no non-zero digit may appear beyond it; without it the neutral default is the model's value if the
+    // probe does not contradict it (every pf op with a precision above 340 compares the digits themselves anyway)
+    if (fmax == C13_UNKNOWN) o.tag("FRAC_MAX=default");
+    else if (fprobe > fmax) o.fail("PRINT_F_FRAC_MAX is " + std::to_string(fmax) + " but %.1000f of a tiny double has a non-zero digit at fraction position " + std::to_string(fprobe));
+    o.tag(("frac-probe=" + std::to_string(fprobe)).c_str());
+    if (pdef == C13_UNKNOWN) o.tag("PREC_DEFAULT=probed");
+    else if (pdef != pprobe) o.fail("PRINT_F_PREC_DEFAULT is " + std::to_string(pdef) + " but %f prints " + std::to_string(pprobe) + " fraction digits");
+    if (szd == C13_UNKNOWN) o.tag("sizeof_DOUBLE=default");
+    snprintf(b, sizeof b, "buff_fits=%ld FRAC_MAX=%ld PREC_DEFAULT=%ld sizeof_DOUBLE=%ld sizeof_int=%ld sizeof_long_double=%ld",
+             fits, fmax == C13_UNKNOWN ? std::max(fprobe, 340L) : fmax, pdef == C13_UNKNOWN ? pprobe : pdef, szd == C13_UNKNOWN ? 8L : szd,
+             c13_const(5), c13_const(14));
+    if (buff != C13_UNKNOWN) o.tag(("BUFF_SZ=" + std::to_string(buff)).c_str());
+    if (emax != C13_UNKNOWN) o.tag(("EXP_MAX=" + std::to_string(emax)).c_str());
+    {
+        std::string t = "ops=";
+        for (int i = 6; i <= 13; i++) t += (i > 6 ? "/" : "") + (c13_const(i) == C13_UNKNOWN ? std::string("?") : std::to_string(c13_const(i)));
+        o.tag(t.c_str());
+    }
+    o.tag(c13_have_print_f() ? "print_f=direct" : "print_f=through-public-entry");
     o.result = b;
     o.tag("consts");
     // the relation print_f_safe_cfg needs of the constants (Cfg.Fits)
-    if (std::max(c13_const(2), 1L) + c13_const(1) + 7 > c13_const(0)) o.fail("PRINT_F_BUFF_SZ is smaller than max(EXP_MAX,1) + FRAC_MAX + 7");
+    if (!fits) o.fail("PRINT_F_BUFF_SZ is smaller than max(EXP_MAX,1) + FRAC_MAX + 7");
 }
 
 // ---------------------------------------------------------------- round 3: print_f called directly (pfd)
 // pfd <bits> <width> <precision> <ops-hex> <with_exp> <is_shortened>: widths, precisions and flag words beyond
+// (round 3b: <ops-hex> is in the encoding of the OP LINE - 1 `-`, 2 `+`, 4 space, 8 `#`, 10 `0`, 20 precision given,
+// 4000 upper case, 2000 `L` - and is translated by c13_print_f to whatever bit values the library uses)
 // what a format string of the generator spells (precision up to 400 000: a 400 KB text; every flag on inf/nan)
 static void run_pfd(const std::vector<std::string> &w, out &o)
 {
@@ -1091,7 +1151,7 @@ static void run_pfd(const std::vector<std::string> &w, out &o)
     Sink s;
     int ret = c13_print_f(sink_cb, &s, (long double)x, (int)width, (int)precision, ops, 10, we, sh);
     o.result = std::to_string(ret) + " " + hex(s.out);
-    o.tag("direct");
+    o.tag(c13_have_print_f() ? "direct" : "direct-through-public-entry");
     if (precision >= 300000 || width >= 300000) o.tag("long-300k");
     // reference text of the host library for the same directive
     std::string f = "%";
@@ -1135,8 +1195,15 @@ static void run_pfx(const std::vector<std::string> &w, out &o)
     Sink s;
     int ret = ld_shim(&s, fmt.c_str(), v);
     o.result = "ld";
+    if (c13_ld_const(4) != (long)sizeof(long double))
+    {
+        // round 3b: the switch LONG_DOUBLE / the macro DOUBLE are internal names; without them there is no such flavour
+        // to judge (the engine computes in double: the standards of the pf oracle apply, not those below)
+        o.tag("long-double-flavour-absent");
+        if (ret != (int)s.calls) o.fail("returned " + std::to_string(ret) + " but emitted " + std::to_string(s.calls));
+        return;
+    }
     o.tag("long-double-flavour");
-    if (c13_ld_const(4) != (long)sizeof(long double)) o.fail("the LONG_DOUBLE build does not compute in long double");
     if (ret != (int)s.calls) o.fail("returned " + std::to_string(ret) + " but emitted " + std::to_string(s.calls));
     std::string outs(s.out.begin(), s.out.end());
     std::vector<char> ref(16384);
